@@ -165,6 +165,9 @@ def vector(req):
             d = tor.create_onion_service(ports, private_key=pk, version=req["version"], single_hop=req["single"],
                                          detach=req["detach"])
             d.addBoth(fired.append)
+            # the caller goes on to use its list object for describing its next service, while Tor's configuration is
+            # still being read: the request stands as it was made
+            ports[:] = ["9999 127.0.0.1:1"]
             reactor.turn()
             sim.pump()
             sim.hold = None
@@ -206,6 +209,7 @@ def vector(req):
                 d = EphemeralOnionService.create(reactor, config, ports, detach=req["detach"], private_key=pk,
                                                  version=req["version"], single_hop=req["single"])
         d.addBoth(fired.append)
+        ports[:] = ["9999 127.0.0.1:1"]         # (the caller's list object is its own to reuse once the call has returned)
         reactor.turn()
         sim.pump()
         # let the descriptor wait finish (non-authenticated services)
